@@ -40,6 +40,12 @@ def run(ctx):
     r64(ctx, prog)
     r66(ctx, prog)
     r67(ctx, prog)
+    # R6.8 "a string literal denotes exactly its content": the scanner (R6.2) sees the characters the caller wrote only if nothing
+    # rewrites the raw input in front of the two stages - the C07 R7.6 composition rule (tokenize = stage 2 of stage 1 of the input,
+    # and the input goes nowhere else), reported here: a CRLF normalisation of the whole source also rewrites string contents
+    from rules.c07 import r75
+    from rules.c05 import _Renamed
+    r75(_Renamed(ctx, 'R6.8'), prog)
 
 
 def char_case(br):
